@@ -29,7 +29,9 @@ LEVEL_TEXT = ("PARTIAL: CSV only. to_parquet / read_parquet cannot run here (pya
               "writer), so the parquet half of the statement is NOT decided by this check. For CSV: Lean 4 theorems over the "
               "block model (read_bytes blocks from the C50 model with exact double offsets, header prepended to every "
               "non-first block): the data rows seen by the per-block parsers, concatenated over the blocks, are the file's "
-              "lines after the header, for every blocksize (csv_blocks_rows; statement and status in Props/C47.lean). "
+              "lines after the header, for every blocksize and every non-empty file whose header line is newline-terminated "
+              "(csv_blocks_rows, fully proved on top of C50's lines_blocksize_independent_ieee; csv_whole_file for "
+              "blocksize=None). "
               "VALIDATED on every run: read_csv == pandas.read_csv for blocksizes 1 byte .. whole file on random frames, "
               "per-partition row counts == the Lean model, to_csv/read_csv round trips (partitionings, name_function, "
               "single_file, index, header), multi-file globs, quoted fields containing the line terminator (known finding).")
